@@ -4,7 +4,7 @@
  * (every interleaving of groups, re-opened sections, group-less entries after sectioned ones), each
  * list realised (0) by setters on econf_newKeyFile, (1) by parsing a generated file, (2) by setters on
  * econf_newKeyFile_with_options(""), and for the empty list also econf_newIniFile.
- * --p0 = L (max list length), --p1 = 1: additionally the long 2-symbol family (lists up to length --p2).
+ * --p0 = L (max list length), --p1 = D: at most D entries (of both lists together) have an empty value, --p3/--p2: long 2-symbol families.
  * Oracle: reference merge written from the property statement.
  */
 #include "mc.h"
@@ -38,7 +38,8 @@ static void gen_side(side *s, int who)
     s->n = mc_choose(sub_len + 1);
     for (int i = 0; i < s->n; i++) { int c = mc_choose(2); s->e[i].g = SUB[family - 1][c][0]; s->e[i].k = SUB[family - 1][c][1]; }
   }
-  for (int i = 0; i < s->n; i++) snprintf(s->e[i].v, sizeof s->e[i].v, "%c%d", who ? 'o' : 'b', i);
+  /* deviation: an entry without value ("k=" when parsed, "" when set) - the override still defines the key */
+  for (int i = 0; i < s->n; i++) { if (mc_choose_dev(2)) s->e[i].v[0] = 0; else snprintf(s->e[i].v, sizeof s->e[i].v, "%c%d", who ? 'o' : 'b', i); }
   s->expressible = 1;
   int seen_section = 0;
   for (int i = 0; i < s->n; i++) { if (s->e[i].g) seen_section = 1; else if (seen_section) s->expressible = 0; }
@@ -234,7 +235,9 @@ int main(int argc, char **argv)
   family = (int)mc_opt.param[3];   /* which family this process explores: 0 full alphabet, 1..3 long 2-symbol */
   if (family < 0 || family > NSUB) mc_die("bad family");
   if (mc_opt.case_id) return mc_replay(gen, exec, mc_opt.case_id);
-  if (mc_explore(gen, exec, 0, 0)) mc_st->bound_completed = family ? sub_len : Lmax;
+  int complete = 1;
+  for (int b = 0; b <= (int)mc_opt.param[1] && complete; b++) complete = mc_explore(gen, exec, b, 1);
+  if (complete) mc_st->bound_completed = family ? sub_len : Lmax;
   mc_finish();
   return 0;
 }
